@@ -148,6 +148,10 @@ def build_v1(spec):
             co += "  $allowed = execute vin%d\n  if not $allowed\n%s    stop\n\n" % (i, refuse)
         elif shape == "mask":
             co += '  $v = execute vin%d\n  if $v == "block"\n%s    stop\n  if $v == "rewrite"\n    $user_message = "MASKEDCONST-%d"\n\n' % (i, refuse, i)
+        elif shape == "note":
+            # a rail that may also SAY something and carry on without `stop` ("note: your message was cleaned")
+            co += '  $v = execute vin%d\n  if $v == "block"\n%s    stop\n  if $v == "note"\n    bot note in %s\n\n' % (i, refuse, L)
+            co += 'define bot note in %s\n  "NOTE-IN-%d"\n\n' % (L, i)
         elif shape == "evt":
             # the action hands back the (possibly rewritten) text as its return value AND emits an event of its own
             co += '  $m = execute vin%d\n  if $m == "BLOCK"\n%s    stop\n  $user_message = $m\n\n' % (i, refuse)
@@ -372,6 +376,10 @@ def model_turn(spec, app, t, orig_text, user_kind="llm", opts=None):
         if v == "block":
             in_blocked = i
             break
+        if v == "note" and spec["ver"] == "v1" and spec["in_shapes"][i] == "note":
+            # the rail says something and does not stop: what the rest of THIS turn does is not fixed by the statement beyond
+            # its safety clauses (see judge); the model stops here
+            return {"exp_in": exp_in, "in_blocked": None, "note_at": i, "text": text, "exp_out": [], "out_blocked": None, "bot": None, "reply": None}
         if v == "rewrite" and spec["ver"] == "v1":
             shape = spec["in_shapes"][i]
             if shape == "mask":
